@@ -571,6 +571,14 @@ impl Property for C10 {
             },
         };
         let base = rc.artefact("base", || base.clone());
+        // the last shard of the JPEG runs works on the signed asset with a foreign (non-C2PA)
+        // APP11 segment of 17-27 bytes put in front of the manifest segments
+        let base = if fmt == Fmt::Jpeg && !matches!(entry, Entry::Archive) && shard == SHARDS - 1 {
+            out.fault("foreign_short_app11");
+            assets::insert_short_app11(&base, &mut Rng::new(hash_str(&format!("{}-app11-{variant}", rc.seed))))
+        } else {
+            base
+        };
         let tag = format!("{:?}:{}:v{variant}", entry, fmt.name());
         let mut fr = Rng::new(hash_str(&format!("{}-faults-{}-{variant}", rc.seed, fmt.name())));
         let faults = amplified(base.len(), &mut fr, quick);
